@@ -4,6 +4,9 @@
 
 mod ast;
 mod check;
+mod check_call;
+mod check_conv;
+mod check_expr;
 mod codegen;
 mod consts;
 mod fmt;
@@ -102,7 +105,7 @@ pub fn compile(text: &str) -> Result<Program, Vec<GoError>> {
     // input can never overflow the caller's stack.
     let res = std::thread::scope(|s| {
         let h = std::thread::Builder::new()
-            .stack_size(512 << 20)
+            .stack_size(256 << 20)
             .spawn_scoped(s, || catch_unwind(AssertUnwindSafe(|| compile_inner(text))));
         match h {
             Ok(h) => match h.join() {
